@@ -6,7 +6,7 @@ import NixModel.Lemmas.C04Bfs
 `subtree_complete` (Props/C04) assumes `ForestSize`. This file discharges the *existence* half of that
 hypothesis from a decidable, local condition on the graph: every child entity of the `sub` hierarchy
 (`k.sections` / `k.sources`) has a larger node key than its parent and lies below a bound `B`
-(`GrowingKids`). HDF5 objects get their key when they are created (`nextKey`), and a section / source
+(`GrowingKids`, restricted to the entities of the hierarchy). HDF5 objects get their key when they are created (`nextKey`), and a section / source
 is created inside an existing parent, so graphs built through the API have this shape; the condition
 itself is evaluated by `decide` on concrete graphs (see the example in Props/C04).
 
@@ -16,15 +16,20 @@ that no entity has two parents (then `n ≤ |nodes|`).
 namespace Nix.Store.C04
 open Nix.Store Nix.Store.Graph
 
-/-- every child in the `sub` hierarchy of a node below `B` has a larger key, still below `B` -/
-def GrowingKids (g : Graph) (sub : String) (B : Nat) : Prop :=
-  ∀ k, k < B → ∀ m ∈ kids g sub k, k < m ∧ m < B
+/-- every child in the `sub` hierarchy of a node below `B` that satisfies `P` has a larger key, still
+below `B`, and satisfies `P` again. `P` singles out the entities of the hierarchy (`kindOf g k = "section"`
+/ `"source"`): a *link list* of a group, array or tag is also called `sources`, and it may well link a
+source that is older than its owner - evaluating the unrestricted condition on the graphs of the
+correspondence runs showed exactly that, hence the restriction. -/
+def GrowingKids (g : Graph) (sub : String) (B : Nat) (P : Nat → Bool) : Prop :=
+  ∀ k, k < B → P k = true → ∀ m ∈ kids g sub k, k < m ∧ m < B ∧ P m = true
 
-instance (g : Graph) (sub : String) (B : Nat) : Decidable (GrowingKids g sub B) := by
+instance (g : Graph) (sub : String) (B : Nat) (P : Nat → Bool) : Decidable (GrowingKids g sub B P) := by
   unfold GrowingKids; exact inferInstance
 
-private theorem forest_of_growing_aux (g : Graph) (sub : String) (B : Nat) (h : GrowingKids g sub B) :
-    ∀ (d : Nat) (q : List Nat), (∀ k ∈ q, k < B ∧ B - k ≤ d) → ∃ n, ForestSize g sub q n := by
+private theorem forest_of_growing_aux (g : Graph) (sub : String) (B : Nat) (P : Nat → Bool)
+    (h : GrowingKids g sub B P) :
+    ∀ (d : Nat) (q : List Nat), (∀ k ∈ q, k < B ∧ P k = true ∧ B - k ≤ d) → ∃ n, ForestSize g sub q n := by
   intro d
   induction d with
   | zero =>
@@ -42,24 +47,24 @@ private theorem forest_of_growing_aux (g : Graph) (sub : String) (B : Nat) (h : 
       intro hq
       have hk := hq k (by simp)
       obtain ⟨b, hb⟩ := ihq (fun x hx => hq x (by simp [hx]))
-      have hkids : ∀ m ∈ kids g sub k, m < B ∧ B - m ≤ d := by
+      have hkids : ∀ m ∈ kids g sub k, m < B ∧ P m = true ∧ B - m ≤ d := by
         intro m hm
-        have := h k hk.1 m hm
-        omega
+        have := h k hk.1 hk.2.1 m hm
+        exact ⟨this.2.1, this.2.2, by omega⟩
       obtain ⟨a, ha⟩ := ihd (kids g sub k) hkids
       exact ⟨1 + a + b, .cons k rest a b ha hb⟩
 
 /-- **finite forest**: under `GrowingKids` the hierarchy below any queue of nodes is a finite forest —
 the breadth-first collection of `find_sections` / `find_sources` (which has no visited set) ends -/
-theorem forest_of_growing (g : Graph) (sub : String) (B : Nat) (h : GrowingKids g sub B)
-    (q : List Nat) (hq : ∀ k ∈ q, k < B) : ∃ n, ForestSize g sub q n :=
-  forest_of_growing_aux g sub B h B q (fun k hk => ⟨hq k hk, by omega⟩)
+theorem forest_of_growing (g : Graph) (sub : String) (B : Nat) (P : Nat → Bool) (h : GrowingKids g sub B P)
+    (q : List Nat) (hq : ∀ k ∈ q, k < B ∧ P k = true) : ∃ n, ForestSize g sub q n :=
+  forest_of_growing_aux g sub B P h B q (fun k hk => ⟨(hq k hk).1, (hq k hk).2, by omega⟩)
 
 /-- hence the collection ends with an empty queue for *some* fuel, and with that fuel it is complete -/
-theorem bfs_ends_of_growing (g : Graph) (sub : String) (B : Nat) (h : GrowingKids g sub B)
-    (k : Nat) (hk : k < B) :
+theorem bfs_ends_of_growing (g : Graph) (sub : String) (B : Nat) (P : Nat → Bool) (h : GrowingKids g sub B P)
+    (k : Nat) (hk : k < B) (hp : P k = true) :
     ∃ fuel, bfsRest g sub fuel [k] = [] ∧ ∀ d, Desc g sub k d → d ∈ bfsKeys g sub fuel [k] [] := by
-  obtain ⟨n, hn⟩ := forest_of_growing g sub B h [k] (by simpa using hk)
+  obtain ⟨n, hn⟩ := forest_of_growing g sub B P h [k] (by simpa using ⟨hk, hp⟩)
   have hdone := bfsRest_done g sub n [k] n hn (Nat.le_refl n)
   exact ⟨n, hdone, fun d hd => bfsKeys_complete g sub n [k] [] hdone k (by simp) d hd⟩
 
